@@ -40,6 +40,11 @@ def build_app(tree):
         # equivalent routes to a (sub-)command configuration: add_*_config(CommandConfig), create_*(name), the context manager
         how = (zlib.crc32(key.encode()) // 7 + i) % 3
         parent = c if nd["parent"] == 0 else cfgs[nd["parent"]]
+        if nd.get("same_as"):   # ONE CommandConfig object attached in a second place of the tree (a leaf identical to node same_as)
+            cc = cfgs[nd["same_as"]]
+            cfgs[i + 1] = cc
+            c.add_command_config(cc) if nd["parent"] == 0 else parent.add_sub_command_config(cc)
+            continue
         if how == 0:
             cc = CommandConfig(txt(nd["name"]))
         elif nd["parent"] == 0:
@@ -287,6 +292,23 @@ def rand_tree(rng):
             c = node(r)
             if pool and rng.random() < 0.5:
                 node(c)
+    for nd in tree:
+        nd["same_as"] = 0
+    # a sub-command named like a global option (--glob / -g): option tokens after the path must still not select it
+    subs = [nd for nd in tree if nd["parent"] != 0]
+    if subs and rng.random() < 0.35:
+        nd = rng.choice(subs)
+        nd["name"] = list("glob")
+        nd["aliases"] = [list("g")] if rng.random() < 0.7 else nd["aliases"]
+    # one configuration object attached in two places: a leaf is attached again under another parent
+    leaves = [k + 1 for k, nd in enumerate(tree) if not any(x["parent"] == k + 1 for x in tree)]
+    if leaves and rng.random() < 0.35:
+        src = rng.choice(leaves)
+        others = [q for q in [0] + [k + 1 for k in range(len(tree)) if tree[k]["parent"] == 0 or tree[tree[k]["parent"] - 1]["parent"] == 0]
+                  if q != tree[src - 1]["parent"] and q != src and (q == 0 or not tree[q - 1].get("same_as"))]
+        if others:
+            q = rng.choice(others)
+            tree.append(dict(tree[src - 1], parent=q, same_as=src))
     return tree
 
 
@@ -305,6 +327,8 @@ def rand_line(rng, tree):
             line.append(rng.choice(words))
     for _ in range(rng.randint(0, 2)):
         line.append(rng.choice(words + [list("-g"), list("--glob"), list("--opt=v"), list("-ov"), []]))   # [] = an empty token
+    if rng.random() < 0.3:   # several option tokens in a row (the first one is looked at differently from the following ones)
+        line += rng.choice([[list("-g"), list("--glob")], [list("--glob"), list("-g")], [list("--opt=v"), list("--glob"), list("-g")], [list("-g"), list("-g")]])
     if rng.random() < 0.3:
         line.append(list("--"))
         for _ in range(rng.randint(0, 2)):
